@@ -12,7 +12,7 @@ import struct
 
 OP = dict(PUSH_BYTE=1, PUSH_SHORT=3, NEXT=25, COPY_NEXT=27, PUT_GLYPH8=28, PUT_SUBS8=29, PUT_COPY=30, INSERT=31, DELETE=32, ASSOC=33, CNTXT_ITEM=34, ATTR_SET=35,
           POP_RET=48, RET_ZERO=49, RET_TRUE=50)
-SLAT_ADVX, SLAT_SHIFTX = 0, 14
+SLAT_ADVX, SLAT_SHIFTX = 0, 20
 
 
 # ------------------------------------------------------------------ text form
